@@ -379,6 +379,14 @@ DropH(c, o) ==
   /\ cli' = Instant(c, o, Mid(c), Last("ok", 0, 0, hnd[x].a))
   /\ UNCHANGED <<rsp, tmr, reg, now, hst>>
 
+\* a handle that a handler put into the pool (Context::weak_*) is picked up by a client
+Claim(c, o) ==
+  LET x == o.h IN
+  /\ CanIssue(c) /\ o.op = "claim" /\ x \in DOMAIN hnd /\ hnd[x].owner = "pool"
+  /\ hnd' = [hnd EXCEPT ![x].owner = c]
+  /\ cli' = Instant(c, o, Mid(c), Last("ok", 0, 0, hnd[x].a))
+  /\ UNCHANGED <<act, rsp, tmr, reg, now, hst>>
+
 Give(c, o) ==
   LET x == o.h IN
   /\ CanIssue(c) /\ Owns(c, x) /\ o.op = "give" /\ o.to \in Client \cup Actor
@@ -556,6 +564,18 @@ BSubmit(c, o) ==
   /\ hst' = H0
   /\ UNCHANGED <<hnd, rsp, tmr, reg, now>>
 
+\* Broker::try_publish (broker.rs:62-68): try_from_registry, then publish through the address
+TryPublish(c, o) ==
+  LET T == BType(o.ty)  has == T \in DOMAIN reg.ent  m == Mid(c)
+      ok == reg.lock = "free" /\ has /\ SvcRunning(reg.ent[T])
+      b == IF has THEN reg.ent[T] ELSE "none"
+  IN
+  /\ CanIssue(c) /\ o.op = "try_publish"
+  /\ act' = IF ok /\ act[b].rx = "open" THEN [act EXCEPT ![b] = Enq(@, BrokerPayload("publish", m, c), DEAD)] ELSE act
+  /\ cli' = Instant(c, o, m, Last(IF ~ok THEN "none" ELSE IF act[b].rx = "open" THEN "ok" ELSE "err", 0, 0, b))
+  /\ hst' = IF ok THEN HPubBegin(hst, T, m) ELSE hst
+  /\ UNCHANGED <<hnd, rsp, tmr, reg, now>>
+
 \* try_from_registry (service.rs:120-129): try_read, no waiting
 TryFromRegistry(c, o) ==
   LET T == o.ty  has == T \in DOMAIN reg.ent
@@ -605,7 +625,7 @@ Abandon(c) ==
 Issue(c, o) ==
   \/ Spawn(c, o) \/ SubmitForce(c, o) \/ SubmitWait(c, o) \/ AwaitBegin(c, o) \/ Query(c, o)
   \/ Convert(c, o) \/ Upgrade(c, o) \/ DropH(c, o) \/ Give(c, o) \/ Detach(c, o) \/ JoinBegin(c, o)
-  \/ ClientSleep(c, o) \/ ClientYield(c, o) \/ RegIssue(c, o) \/ TryFromRegistry(c, o) \/ StreamFeed(c, o) \/ BSubmit(c, o)
+  \/ ClientSleep(c, o) \/ ClientYield(c, o) \/ RegIssue(c, o) \/ TryFromRegistry(c, o) \/ StreamFeed(c, o) \/ BSubmit(c, o) \/ TryPublish(c, o) \/ Claim(c, o)
 
 \* continuation steps of a pending operation
 ClientCont(c) == Flushed(c) \/ RespReturn(c) \/ AwaitReturn(c) \/ JoinReturn(c) \/ ClientWake(c) \/ RegBody(c) \/ RegPingReturn(c)
@@ -681,6 +701,7 @@ CtxSubmit(a, k) ==    \* Context::stop / restart (context.rs:82-88, 299-305): up
 CtxSubmitOk(a) == FoHeld(a) /\ act[a].rx = "open"
 
 TimerKinds == {"interval", "interval_with", "delayed_send", "delayed_exec"}
+CtxWeakKind == [ctx_weak_address |-> "waddr", ctx_weak_sender |-> "wsender", ctx_weak_caller |-> "wcaller"]
 ChildBucket == [add_child |-> "unit", register_bc |-> "bc", register_bc2 |-> "bc2"]
 BroadcastBucket == [broadcast_unit |-> "unit", broadcast_bc |-> "bc", broadcast_bc2 |-> "bc2"]
 TimerName(a, e) == e.s \o "." \o ToString(act[a].inc)    \* a restarted `started` registers afresh
@@ -739,6 +760,12 @@ ScriptStep(a) ==
                  /\ cli' = [cli EXCEPT ![a].nest = "none"]
                  /\ act' = [act EXCEPT ![a].ip = @ + 1]
                  /\ UNCHANGED <<hnd, rsp, tmr, reg, now, hst>>
+       [] e.e \in DOMAIN CtxWeakKind ->   \* Context::weak_address / weak_sender / weak_caller (context.rs:160-200): a weak handle leaves the handler
+            LET k == CtxWeakKind[e.e]
+                ok == e.s \notin DOMAIN hnd /\ (k # "waddr" \/ CanUpgrade(a, "waddr"))     \* weak_address() is None once no strong handle is left
+            IN /\ hnd' = IF ok THEN (e.s :> [kind |-> k, a |-> a, owner |-> "pool", polled |-> FALSE]) @@ hnd ELSE hnd
+               /\ act' = [act EXCEPT ![a].ip = @ + 1]
+               /\ UNCHANGED <<cli, rsp, tmr, reg, now, hst>>
        [] e.e \in {"call_peer", "send_peer"} ->   \* the handler calls / sends to ANOTHER actor through an Addr it was given (e.s)
             LET x == e.s
                 o == [op |-> IF e.e = "call_peer" THEN "call" ELSE "send", h |-> x, nh |-> "none", scr |-> <<>>]
